@@ -131,7 +131,20 @@ class FakeEyaml:
         fault = self.faults.get(index)
         if fault is not None:
             self.world.flags.add("peer-fault:" + fault)
+        # subprocess.run's text mode (encoding= / errors= / text= /
+        # universal_newlines=): str in, str out, and universal-newline
+        # translation of what the child printed -- as CPython does it.
+        encoding = kwargs.get("encoding")
+        text_mode = bool(encoding or kwargs.get("errors")
+                         or kwargs.get("text")
+                         or kwargs.get("universal_newlines"))
+        encoding = encoding or "utf-8"
+        if isinstance(input, str):
+            input = input.encode(encoding)
         code, out, note = self._serve(verb, opts, input or b"", fault)
+        if text_mode:
+            out = out.decode(encoding).replace("\r\n", "\n").replace(
+                "\r", "\n")
         self.log.append((index, verb, note, code))
         self.world.trace.append((self.world.k, "peer-" + verb, note, len(out),
                                  fault))
